@@ -364,6 +364,8 @@ class Hosts:
 
     def __init__(self):
         self.dir = tempfile.mkdtemp(prefix='verif_hosts_')
+        import atexit
+        atexit.register(self.cleanup)
         self.modules = {}
         self.marks = {}
         self.files = {}
